@@ -82,7 +82,7 @@ impl Lcg {
 }
 
 /// C01: vectors from TLC (message shapes) + seeded random messages + greeting/READY of every socket type.
-pub async fn c01(vectors: &[Value], seed: u64, nrandom: usize) -> Vec<Value> {
+pub async fn c01(vectors: &[Value], seed: u64, nrandom: usize, all_idents: bool) -> Vec<Value> {
     let mut out = vec![];
     for (k, v) in vectors.iter().enumerate() {
         let lens: Vec<usize> = v["lens"].as_array().map(|a| a.iter().filter_map(|x| x.as_u64()).map(|x| x as usize).collect()).unwrap_or_default();
@@ -123,8 +123,16 @@ pub async fn c01(vectors: &[Value], seed: u64, nrandom: usize) -> Vec<Value> {
         out.push(enc_event(&frames));
     }
     // greeting + READY actually written by each socket type on an attached connection
-    for t in engine::ALL_TYPES {
-        for ident in [None, Some(vec![0x41u8]), Some(vec![0x7au8; 255])] {
+    for (ti, t) in engine::ALL_TYPES.iter().enumerate() {
+        // every identity length 1..=255 (the READY size crosses the short/long boundary inside this range);
+        // quick tier: all lengths for three socket types with different name lengths, boundary lengths for the rest
+        let mut idents: Vec<Option<Vec<u8>>> = vec![None];
+        for n in 1..=255usize {
+            if all_idents || ti % 3 == 0 || n == 1 || n == 255 {
+                idents.push(Some((0..n).map(|i| (0x30 + ((i + n) % 75)) as u8).collect()));
+            }
+        }
+        for ident in idents {
             let sock = AnySock::new(t, ident.clone());
             let (to_lib, from_lib) = (H::new(), H::new());
             // the peer stays silent: the library writes its greeting first, then waits
@@ -452,7 +460,7 @@ pub fn c03(vectors: &[Value], progress: Option<String>, out_path: String) -> usi
                     let (bytes, maxmsgs) = big_input(v);
                     let base = crate::alloc::window_start();
                     let r = catch_unwind(AssertUnwindSafe(|| feed_partition(&bytes, &[], true)));
-                    let peak = crate::alloc::window_peak(base);
+                    let peak = crate::alloc::window_peak(base).min(i32::MAX as usize); // TLC integers are 32-bit
                     let (panic, nmsgs) = match &r {
                         Ok((_, items, _)) => (false, items.iter().filter(|(s, _)| s.is_array()).count()),
                         Err(_) => (true, 0),
@@ -467,7 +475,7 @@ pub fn c03(vectors: &[Value], progress: Option<String>, out_path: String) -> usi
                 let cuts: Vec<usize> = v.get("cuts").and_then(|c| c.as_array()).map(|a| a.iter().filter_map(|x| x.as_u64()).map(|x| x as usize).collect()).unwrap_or_default();
                 let base = crate::alloc::window_start();
                 let r = catch_unwind(AssertUnwindSafe(|| feed_partition(&bytes, &cuts, true)));
-                let peak = crate::alloc::window_peak(base);
+                let peak = crate::alloc::window_peak(base).min(i32::MAX as usize); // TLC integers are 32-bit
                 let (panic, msgs, errs) = match &r {
                     Ok((_, items, _)) => (
                         false,
